@@ -78,7 +78,8 @@ Lemma prh_item_ok acc le b e s :
   prh_item (acc, le) s = Ok (Some (acc ++ [(b, e)], match e with Some e' => e' | None => (-1)%Z end)).
 Proof.
   intros Hs Hle Hb. destruct (range_item_chars _ _ Hs) as [Hc Hne].
-  unfold prh_item. rewrite tight_strip by (apply num_tight; assumption).
+  unfold prh_item, prh_guard_suffix_after_open, prh_guard_suffix_zero, prh_guard_order, prh_guard_empty.
+  rewrite tight_strip by (apply num_tight; assumption).
   unfold range_item_to_str in Hs. destruct e as [e|].
   - apply bind_ok in Hs. destruct Hs as (s1 & H1 & Hs). apply bind_ok in Hs. destruct Hs as (s2 & H2 & Hs). injection Hs as <-.
     destruct (str_of_Z_nonneg_digits _ _ H1 ltac:(lia)) as [D1 N1].
